@@ -134,6 +134,9 @@ class Executor:
             return v
         if v.ty is PY and isinstance(v.py, tuple) and v.py and v.py[0] == "pytype" and is_ref(ty):
             return V(self.model.pytype_consts[v.py[1]], ty)
+        if v.ty is PY and type(v.py).__name__ == "Native" and is_ref(ty):
+            nm = getattr(v.py.obj, "__name__", None) or type(v.py.obj).__name__
+            return V(z3.Const("native.obj." + nm, Ref), ty)
         if isinstance(ty, OptT):
             if v.ty is NONE_T:
                 return V(NONE, ty)
@@ -260,6 +263,10 @@ class Executor:
         return pyv(("symset", tuple(items)))
 
     def ev_Dict(self, e, st):
+        if e.keys and all(k is None for k in e.keys):
+            return self.model.merge_maps(self, [self.ev(v, st) for v in e.values], st)
+        if any(k is None for k in e.keys):
+            raise Unsupported("dict display mixing ** and explicit keys")
         return self.model.make_dict(self, [(self.ev(k, st), self.ev(v, st)) for k, v in zip(e.keys, e.values)], st)
 
     def ev_Attribute(self, e, st):
